@@ -118,7 +118,7 @@ func fsBytes(kind string, tree *treeSpec) ([]byte, error) {
 		if err != nil {
 			return nil, err
 		}
-		n := img.Dev.NonZeroExtent()
+		n := highestWrite(img.Dev)
 		n = (n + 4095) / 4096 * 4096
 		return img.Dev.Bytes(0, n), nil
 	default:
@@ -126,7 +126,7 @@ func fsBytes(kind string, tree *treeSpec) ([]byte, error) {
 		if err != nil {
 			return nil, err
 		}
-		n := img.Dev.NonZeroExtent()
+		n := highestWrite(img.Dev)
 		n = (n + 4095) / 4096 * 4096
 		return img.Dev.Bytes(0, n), nil
 	}
